@@ -96,3 +96,10 @@ LEVEL["C17"] = ("Who-may-pick-a-mode table over every literal analysis mode in t
                 "per-hit highlight data.")
 NOTE["C17"] = ("Not decided: the findability relation itself, stemmer behaviour, highlight substring arithmetic. "
                "C17-R4 recognises only the listed normal forms of the clamped gram size.")
+LEVEL["C08"] = ("Writer/reader sibling agreement for every column type (factory arguments, struct byte order, VarBytes "
+                "trailer layout and its distances from the end, buffers written only after the final fill, lengths and "
+                "offsets padded together), default-elision agreement, codec internal-column identity, value flow of the "
+                "_stored_ override in add_document, per-row column copy during merges, multi-segment column coverage.")
+NOTE["C08"] = ("Not decided: behaviour at the 256/65536/2^31 thresholds, pickle/zlib round-trips, mmap. The vector-length "
+               "column is written as 'i' and read as 'I' (same width; benign for non-negative lengths) and is accepted "
+               "as byte-compatible.")
